@@ -56,7 +56,7 @@ Theorem C01_sound_partial :
     forall (lines : list string) (ds : list (node * nat)) (yerr : option perror),
       (forall d nl, ds = [(d, nl)] -> guards_doc d) ->
       strict_blocks expr_ok dur_ok tmpl_pint
-        (parse_strict plines metric_ok lname_ok lvalue_ok dur_ok int_ok false lines ds yerr) = false ->
+        (parse_strict plines metric_ok lname_ok lvalue_ok dur_ok int_ok null_ok false lines ds yerr) = false ->
       prom_accepts str_ok int_ok null_ok expr_ok dur_ok dur_zero metric_ok lname_ok lvalue_ok tmpl_prom (map fst ds) = true.
 Proof. intros. eapply stream_sound; eauto. Qed.
 Print Assumptions C01_sound_partial.
@@ -149,11 +149,11 @@ Definition refutes (d : node) : Prop := model_blocks (mk d 0) = false /\ model_p
 Definition w_null_record : node :=
   Dc 1 1 388 [Mp "!!map" 1 1 388 [Sc "!!str" "groups" 1 1 439; Sq "!!seq" 2 1 388 [Mp "!!map" 2 3 388
     [Sc "!!str" "name" 2 3 439; Sc "!!str" "g" 2 9 439; Sc "!!str" "rules" 3 3 439;
-     Sq "!!seq" 4 3 388 [Mp "!!map" 4 5 388 [Sc "!!str" "record" 4 5 439; Sc "!!null" "~" 4 13 2535; Sc "!!str" "expr" 5 5 439; Sc "!!str" "up" 5 11 439]]]]]].
+     Sq "!!seq" 4 3 388 [Mp "!!map" 4 5 388 [Sc "!!str" "record" 4 5 439; Sc "!!null" "~" 4 13 6631; Sc "!!str" "expr" 5 5 439; Sc "!!str" "up" 5 11 439]]]]]].
 Definition w_null_expr : node :=
   Dc 1 1 388 [Mp "!!map" 1 1 388 [Sc "!!str" "groups" 1 1 439; Sq "!!seq" 2 1 388 [Mp "!!map" 2 3 388
     [Sc "!!str" "name" 2 3 439; Sc "!!str" "g" 2 9 439; Sc "!!str" "rules" 3 3 439;
-     Sq "!!seq" 4 3 388 [Mp "!!map" 4 5 388 [Sc "!!str" "alert" 4 5 439; Sc "!!str" "A" 4 12 439; Sc "!!str" "expr" 5 5 439; Sc "!!null" "null" 5 11 2551]]]]]].
+     Sq "!!seq" 4 3 388 [Mp "!!map" 4 5 388 [Sc "!!str" "alert" 4 5 439; Sc "!!str" "A" 4 12 439; Sc "!!str" "expr" 5 5 439; Sc "!!null" "null" 5 11 6647]]]]]].
 Definition w_nameless_group : node :=
   Dc 1 1 388 [Mp "!!map" 1 1 388 [Sc "!!str" "groups" 1 1 439; Sq "!!seq" 2 1 388 [Mp "!!map" 2 3 388
     [Sc "!!str" "interval" 2 3 439; Sc "!!str" "1m" 2 13 447]]]].
@@ -185,9 +185,6 @@ Definition w_null_tag_text : node :=
     [Sc "!!str" "name" 2 3 439; Sc "!!str" "g1" 2 9 439; Sc "!!str" "rules" 3 3 439;
      Sq "!!seq" 4 3 388 [Mp "!!map" 4 5 388 [Sc "!!str" "alert" 4 5 439; Sc "!!str" "HighErrors" 4 12 439; Sc "!!str" "expr" 5 5 439; Sc "!!str" "up == 0" 5 11 439;
                                               Sc "!!str" "for" 6 5 439; Sc "!!str" "5m" 6 10 447; Sc "!!str" "annotations" 7 5 439; Sc "!!null" "x" 7 18 407]]]]]].
-Theorem C01_sound_refuted_null_tag_text : refutes w_null_tag_text.
-Proof. vm_compute. repeat split. Qed.
-Print Assumptions C01_sound_refuted_null_tag_text.
 Definition w_group_labels_alias_map : node := Mp "!!map" 6 18 65924 [Sc "!!str" "__name__" 7 7 439; Sc "!!str" "x" 7 17 439].
 Definition w_group_labels_alias : node :=
   Dc 1 1 388 [Mp "!!map" 1 1 388 [Sc "!!str" "groups" 1 1 439; Sq "!!seq" 2 1 388
@@ -197,9 +194,6 @@ Definition w_group_labels_alias : node :=
      Mp "!!map" 8 3 388 [Sc "!!str" "name" 8 3 439; Sc "!!str" "g2" 8 9 439; Sc "!!str" "labels" 9 3 439;
                          Node KAlias "!!map" "l" 9 11 407 [] (Some w_group_labels_alias_map) None;
                          Sc "!!str" "rules" 10 3 439; Sq "!!seq" 10 10 388 []]]]].
-Theorem C01_sound_refuted_group_labels_alias : refutes w_group_labels_alias.
-Proof. vm_compute. repeat split. Qed.
-Print Assumptions C01_sound_refuted_group_labels_alias.
 Definition w_dm_a : node := Mp "!!map" 6 13 65924 [Sc "!!str" "for" 7 7 439; Sc "!!str" "5m" 7 12 447].
 Definition w_dm_b : node := Mp "!!map" 8 18 65924 [Sc "!!str" "keep_firing_for" 9 7 439; Sc "!!str" "1m" 9 24 447].
 Definition w_double_merge : node :=
@@ -211,15 +205,16 @@ Definition w_double_merge : node :=
         Mp "!!map" 10 5 388 [Sc "!!merge" "<<" 10 5 423; Node KAlias "!!map" "a" 10 9 407 [] (Some w_dm_a) None;
                              Sc "!!merge" "<<" 11 5 423; Node KAlias "!!map" "b" 11 9 407 [] (Some w_dm_b) None;
                              Sc "!!str" "alert" 12 5 439; Sc "!!str" "C" 12 12 439; Sc "!!str" "expr" 13 5 439; Sc "!!str" "up" 13 11 439]]]]]].
-Theorem C01_sound_refuted_double_merge : refutes w_double_merge.
-Proof. vm_compute. repeat split. Qed.
-Print Assumptions C01_sound_refuted_double_merge.
 Theorem C01_sound_refuted_merge_not_alias : refutes w_merge.
 Proof. vm_compute. repeat split. Qed.
 Print Assumptions C01_sound_refuted_merge_not_alias.
-Theorem C01_sound_refuted_tag_kind : refutes w_tag_kind.
+(** Round-3 repairs (b9483ac, 17469da, e113542, b22de24): the witnesses of the four classes found or confirmed in this round
+    are now blocked by the pint model and still refused by the Prometheus model; a regression of any of the four commits flips
+    its conjunct. *)
+Theorem C01_fixed_witnesses_blocked_round3 :
+  now_blocked w_null_tag_text /\ now_blocked w_group_labels_alias /\ now_blocked w_double_merge /\ now_blocked w_tag_kind.
 Proof. vm_compute. repeat split. Qed.
-Print Assumptions C01_sound_refuted_tag_kind.
+Print Assumptions C01_fixed_witnesses_blocked_round3.
 
 (** Non-vacuity: a document inside the fragment (guards hold) that pint passes and Prometheus loads, and one with a
     PromQL syntax error that pint blocks and Prometheus refuses. *)
